@@ -82,6 +82,10 @@ def table(rng):
     # one table in six has a column whose NAME is a parameter name of the dictable constructor ('columns', 'data'): a result that is
     # rebuilt through keyword arguments would swallow it
     cols = rng.sample(NAMES + (['columns', 'data'] if rng.random() < 0.17 else []), k)
+    if rng.random() < 0.12:
+        # one table in eight has a column called 'self': a keyword filter d.inc(self = 1) must reach the column, not collide with the
+        # method's own first parameter (review 4 v1-A; the same class as 3f6f382 for Dict.__call__ / relabel)
+        cols[rng.randrange(k)] = 'self'
     if rng.random() < 0.16:
         # one table in six has one or two columns whose KEY is not a string (what pivot returns)
         for j in rng.sample(range(k), min(k, rng.choice([1, 1, 2]))):
@@ -317,7 +321,7 @@ def generate(rng, tier):
             EXTRA.setdefault('condition_kinds', {})
             EXTRA['condition_kinds'][c[0]] = EXTRA['condition_kinds'].get(c[0], 0) + 1
         for line in lines_of(rng, sc):
-            yield dict(tag=('keyed-columns:' if is_keyed(sc[0]) else '') + sc[4] + ':' + s, lines=[line])
+            yield dict(tag=('keyed-columns:' if is_keyed(sc[0]) else '') + ('self-column:' if 'self' in sc[0] else '') + sc[4] + ':' + s, lines=[line])
 
 
 # ----------------------------------------------------------------------------- implementation runner
@@ -483,6 +487,8 @@ def laws(rng, tier, ctx):
         conds = effective(kw, dc)
         tw = enck(t)
         tail = '%s %s %s' % (pred_wire(p), kvw(kw), kvw(dc) if dc is not None else 'N')
+        if 'self' in t:
+            tag = 'self-column:' + tag
         if is_keyed(t):
             tag = 'keyed-columns:' + tag
         case = dict(tag='law:' + tag, lines=['(flt inc %s %s)' % (tw, tail), '(flt exc %s %s)' % (tw, tail)], atomic=True)
